@@ -20,6 +20,14 @@ def main():
     dest = os.path.join("/verif/seeded", sid)
     os.makedirs(dest, exist_ok=True)
     meta = dict(id=sid, property=prop, needs=needs, ran=[])
+    earlier = []
+    try:
+        old = json.load(open(os.path.join(dest, "meta.json")))
+        earlier = old.get("earlier_runs", []) + [dict(detected=old.get("detected"), check_rc=old.get("check_rc"), verif_commit=old.get("verif_commit"), check_output_tail=old.get("check_output_tail"))]
+    except Exception:
+        pass
+    meta["earlier_runs"] = earlier
+    meta["verif_commit"] = subprocess.run("git -C /verif rev-parse --short HEAD", shell=True, capture_output=True, text=True).stdout.strip() + "+working-tree"
     patch = os.path.join(out, "patch.diff")
     # state: worktree has the change applied
     rc, o = sh("git diff --stat -- src include", cwd=wt)
